@@ -31,8 +31,11 @@ def usable_engines():
 
 
 def _probe_engines():
-    from pysat.examples.rc2 import RC2
-    from pysat.formula import WCNF
+    """An engine is usable iff a small battery of MaxSAT instances (one needing a core, an empty formula, one without hard
+    clauses, one with unsatisfiable hard clauses) runs through RC2 with the expected optima - each engine probed in a forked
+    child, because some bindings do not raise but crash the interpreter (pysat's maplesat segfaults on an empty formula)."""
+    import os
+
     from pysat.solvers import SolverNames
 
     out = []
@@ -40,19 +43,35 @@ def _probe_engines():
         if attr.startswith("_"):
             continue
         name = names[0]
-        try:
-            w = WCNF()
-            w.append([1, 2])
-            w.append([-1], weight=1)
-            w.append([-2], weight=1)
-            with RC2(w, solver=name) as r:
-                m = r.compute()
-                if m is None or r.cost != 1:
-                    continue
+        pid = os.fork()
+        if pid == 0:
+            code = 1
+            try:
+                code = 0 if _battery(name) else 1
+            except BaseException:  # noqa: BLE001  engines that are not installed / not implemented
+                code = 1
+            os._exit(code)
+        _pid, status = os.waitpid(pid, 0)
+        if os.WIFEXITED(status) and os.WEXITSTATUS(status) == 0:
             out.append("rc2-" + name)
-        except BaseException:  # noqa: BLE001  engines that are not installed / not implemented
-            continue
     return out
+
+
+def _battery(name):
+    from pysat.examples.rc2 import RC2
+    from pysat.formula import WCNF
+
+    def opt(hard, soft):
+        w = WCNF()
+        for c in hard:
+            w.append(c)
+        for c in soft:
+            w.append(c, weight=1)
+        with RC2(w, solver=name) as r:
+            m = r.compute()
+            return None if m is None else r.cost
+    return (opt([[1, 2]], [[-1], [-2]]) == 1 and opt([], []) == 0 and opt([], [[1], [-1]]) == 1
+            and opt([[1], [-1]], [[2]]) is None and opt([[1]], []) == 0)
 
 
 # ---------------------------------------------------------------------------------------------------------
